@@ -599,6 +599,10 @@ func (ev *Eval) floatBuiltin(name string, t *wgen.Type, sc *wgen.Type, args []Va
 				s.Tol = 0
 			} else if !s.Ind && math.Abs(v) < m*1e-3 {
 				s.Ind = true
+			} else if !s.Ind {
+				// each product is rounded at its own magnitude: the error bound is in ulps of the products, which is many
+				// ulps of a result that cancelled
+				s.Tol, s.Ind = cancelTol(v, 8, f(a0.S[i])*f(b.S[j]), f(a0.S[j])*f(b.S[i]))
 			}
 			return s
 		}
@@ -620,6 +624,9 @@ func (ev *Eval) floatBuiltin(name string, t *wgen.Type, sc *wgen.Type, args []Va
 		s := ftol(d, 64, a0.S...)
 		if !s.Ind && math.Abs(d) < mag*1e-3 {
 			s.Ind = true
+		} else if !s.Ind {
+			// n! products of magnitude <= mag, each rounded at its own size (see cancelTol)
+			s.Tol, s.Ind = cancelTol(d, 64, mag, mag, mag, mag)
 		}
 		return Val{T: t, S: []Sc{s}}
 	default:
